@@ -189,7 +189,14 @@ async def worker_serve(
 
             await lifespan.wait_for_shutdown()
             lifespan_task.cancel()
-            await lifespan_task
+            try:
+                await lifespan_task
+            except asyncio.CancelledError:
+                # The app was still running (e.g. cleaning up after it
+                # had sent the shutdown complete message), that it is
+                # cancelled is not an error to raise to the caller.
+                if not lifespan_task.cancelled():
+                    raise
 
 
 def asyncio_worker(
